@@ -12,7 +12,7 @@ CBPF_TRUST = [
 ]
 
 
-from hooks_c19 import hook as c19_hook   # C19: names the (target, constant, value, expected) behind a broken theorem
+from hooks_c19 import hook as c19_hook, replay as c19_replay   # C19: names the (target, constant, value, expected) behind a broken theorem
 
 
 def policy_stream(profile, quick, thorough, corpus=None, seeds=3, extra=None):
@@ -73,6 +73,7 @@ PROPS = {
         # one pass over the facts; thorough additionally runs go build + go vet for every target (scratch GOCACHE)
         "streams": [{"stream": "consts", "profile": "targets", "quick": 1, "thorough": 1, "timeout": 3000}],
         "hook": c19_hook,
+        "replay": c19_replay,
         "exhaustive": True,
         "trusted": ["go/packages + go/types constant evaluation under each GOOS/GOARCH (the translator's per-target rows); the linux/amd64 row is compared with the compiled package on every run, every row with `go build`/`go vet` in the thorough tier",
                     "the installed kernel UAPI headers and gcc (oracle Gen.uapi); one hand-written oracle row: ENOSYS = 89 on linux/mips* (no MIPS headers installed), documented in Proofs/C19.lean",
